@@ -67,9 +67,23 @@ def mods():
 DTYPES = {"float32": "float32", "float16": "float16", "bfloat16": "bfloat16"}
 
 
-def model_config():
+def model_config(mopts=None):
+    """`mopts`: positional_encoding sin|learned|none, head policy|text, n_layer, d_model, d_head,
+    n_ctx, autoregressive_mask — every choice `xformer.Config` offers that changes the modules"""
     m = mods()
-    return m.xformer.Config(n_vocab=256, n_layer=1, d_model=8, d_head=4, n_ctx=16, output_head=m.heads.PolicyValue)
+    o = mopts or {}
+    kw = dict(
+        n_vocab=256,
+        n_layer=int(o.get("n_layer", 1)),
+        d_model=int(o.get("d_model", 8)),
+        d_head=int(o.get("d_head", 4)),
+        n_ctx=int(o.get("n_ctx", 16)),
+        positional_encoding=o.get("positional_encoding", "sin"),
+        autoregressive_mask=bool(o.get("autoregressive_mask", True)),
+    )
+    if o.get("head", "policy") == "policy":
+        kw["output_head"] = m.heads.PolicyValue
+    return m.xformer.Config(**kw)
 
 
 def make_config(run_dir, opts=None):
@@ -78,16 +92,18 @@ def make_config(run_dir, opts=None):
     m = mods()
     opts = opts or {}
     cfg = m.azconfig.Config(
-        model=model_config(),
+        model=model_config(opts.get("model")),
         device="cpu",
         run_dir=run_dir,
         load_model=opts.get("load_model"),
-        lr=1e-2,
+        lr=float(opts.get("lr", 1e-2)),
         replay_buffer_steps=int(opts.get("replay_buffer_steps", 3)),
         train_batch=int(opts.get("train_batch", 4)),
         train_positions=int(opts.get("train_positions", 8)),
         hooks=[],
     )
+    if opts.get("train_dtype"):
+        cfg.train_dtype = getattr(m.torch, opts["train_dtype"])
     if opts.get("serve_dtype"):
         cfg.serve_dtype = getattr(m.torch, opts["serve_dtype"])
     return cfg
@@ -141,7 +157,11 @@ def init_state(run, sid, step):
         b = make_batch(1000 * sid + i)
         st.opt.zero_grad()
         out = st.model(b["positions"], ~b["mask"])
-        loss = ((out["values"] - b["values"]) ** 2).mean() - (torch.log_softmax(out["moves"], -1) * b["moves"]).sum(-1).mean()
+        if isinstance(out, dict):  # PolicyValue head
+            val, mov = out["values"].float(), out["moves"].float()
+            loss = ((val - b["values"]) ** 2).mean() - (torch.log_softmax(mov, -1) * b["moves"]).sum(-1).mean()
+        else:  # text head: logits
+            loss = (out.float() ** 2).mean() + out.float()[:, 0, : b["values"].shape[0]].diagonal().mean()
         loss.backward()
         st.opt.step()
     st.opt.zero_grad()
@@ -197,6 +217,7 @@ def fingerprint(state):
     opt_steps = sorted({float(v["step"]) for v in osd.values() if "step" in v})
     return {
         "params": _digest(params),
+        "param_fps": dict(params),  # every tensor of state_dict (parameters AND buffers)
         "opt": _digest(opt),
         "replay": _digest(replay),
         "counters": _digest(counters),
@@ -233,7 +254,9 @@ def file_digests(run_dir):
             try:
                 if f == "model.pt":
                     sd = m.torch.load(p, map_location="cpu")
-                    dig = _digest([[k, _tensor_fp(v)] for k, v in sd.items()])
+                    # per tensor, so that the file is recognised by what it holds (every tensor it
+                    # stores is bit for bit a tensor of some state), not by which keys it stores
+                    dig = {k: _tensor_fp(v) for k, v in sd.items()} if isinstance(sd, dict) and sd else None
                 elif f in ("opt.pt", "replay_buffer.pt"):
                     dig = _digest(_canon(m.torch.load(p, map_location="cpu")))
                 elif f == "elapsed.yaml":
